@@ -113,7 +113,7 @@ CONFIG = {
         "assumptions": ["strsim scores are oracle rows", "WF as for C01"],
     },
     "C03": {
-        "lean_modules": ["Darling.Props.C03"],
+        "lean_modules": ["Darling.Props.C03", "Darling.Props.C03Recv"],
         "streams": [
             # error-algebra part: the same histories as C04, with spans compared
             {"name": "c04", "n": {"quick": 20000, "thorough": 400000},
@@ -132,7 +132,7 @@ CONFIG = {
         "impl_judge": c03_judge,
         "rule": "error histories with with_span applied at random nodes (bundles and leaves) in random order; non-trivial = at least one with_span in the history; distinct by case text",
         "assumptions": ["spans are byte ranges of tokens parsed from source text (proc-macro2 span-locations)"],
-        "partial": "error algebra proved in full; span placement by built-in conversions, maps and derived receivers is established by the models' explicit with_span calls (mirrored site by site) and the correspondence streams, with the per-leaf containment judged on the implementation's answers",
+        "partial": "error algebra proved in full; placement proved for the derived struct parser's item loop (`coreLoop_placed`: every recorded mistake is spanned inside the item at fault, given converters that honour the same contract); placement inside built-in conversions and maps is mirrored site by site and tied by the correspondence streams plus the per-leaf containment judge on the implementation's answers",
     },
     "C04": {
         "lean_modules": ["Darling.Props.C04"],
